@@ -334,6 +334,8 @@ def analyse(src: Source) -> List[Report]:
                        f"{b / k if k else None}")
     rep.unit("configured_coulomb_bound_pairs", n_pairs)
     rep.expect_min("R4.4-configured-bound-ratio", 10)
+    from ..handler_dims import check_handler_dimensions
+    check_handler_dimensions(prog, src, rep, "R4.6-handler-dimensions", None)
     rep.unit("thinning_handlers", thinning_handlers)
     rep.unit("confirmation_sites", n_sites)
     rep.expect_min("R4.1-has-confirmation", 8)
@@ -395,6 +397,9 @@ MUTANTS.append(Edit("water config: bound prefactor too small", "jellyfysh/config
 MUTANTS.append(Edit("piecewise constant: stale rate kept beyond the interval", EH + "abstracts/event_handler_with_bounding_potential.py",
                     "        else:\n            self._bounding_event_rate = None\n            return self._max_displacement",
                     "        else:\n            return self._max_displacement", "R4.5"))
+MUTANTS.append(Edit("confirmation compares a rate with a derivative per length", EB,
+                    "if random.uniform(0, self._bounding_event_rate) < real_derivative:",
+                    "if random.uniform(0, self._bounding_event_rate) < real_derivative * self._active_leaf_unit.velocity[0]:", "R4.6"))
 TWINS = [
     Edit("random() * B form", EB, "if random.uniform(0, self._bounding_event_rate) < real_derivative:",
          "if random.random() * self._bounding_event_rate < real_derivative:"),
